@@ -46,6 +46,7 @@ namespace irx {
     int sym       = -1;  // term id (bv for INT, real for FP); -1 = concrete
     int obj       = 0;   // PTR: 0 null, >0 object id, -1 function (off = function index)
     int64_t off   = 0;
+    bool undef    = false; // indeterminate value (read of uninitialised memory / LLVM undef): using it to decide or address is reported
     std::shared_ptr<std::vector<Val>> agg;
     bool is_sym() const { return sym >= 0; }
     static Val mk_int(unsigned b, uint64_t v) { Val x; x.k = INT; x.bits = b; x.c = b >= 64 ? v : (v & ((1ULL << b) - 1)); return x; }
@@ -82,7 +83,7 @@ namespace irx {
   struct Stats
   {
     long paths = 0, cut_bound = 0, cut_budget = 0, ended_assume = 0, ended_abort = 0, uncaught = 0, queries = 0, unknown = 0, forks = 0, insts = 0;
-    long infeasible_discarded = 0;
+    long infeasible_discarded = 0, sliced_unsat = 0;
     long assert_checked = 0, assert_failed = 0, mem_errors = 0, ub_found = 0, uninit_reads = 0;
     double solver_s = 0;
   };
